@@ -118,12 +118,12 @@ func decomposerScenario(ch chain, nQ, nP int) engine.Scenario {
 		if nP > 0 {
 			levelP = c.Choose(nP, "levelP")
 			nbPi = levelP + 1
-		} else if c.Choose(2, "noP-call-convention") == 1 {
-			// exactly what rlwe.Evaluator.gadgetProductSinglePAndBitDecompLazy passes for a gadget ciphertext
-			// without P and without power-of-two decomposition: nbPi = levelP+1 = 0
-			nbPi = 0
-			site = siteNbPiZero
 		}
+		// (Until the "fix: ... nbPi" commit in /repo, rlwe.Evaluator.gadgetProductSinglePAndBitDecompLazy called the
+		// decomposer with nbPi = levelP+1 = 0 for gadget ciphertexts without P and without power-of-two decomposition;
+		// that call convention no longer exists in the library. The end-to-end gadget-product scenarios below keep the
+		// regression covered under the same signature.)
+		_ = siteNbPiZero
 		rQ := mustRing(Q)
 		var rP *ring.Ring
 		if nP > 0 {
